@@ -130,6 +130,9 @@ type TxSpec struct {
 	Script []byte  // native script locking the spent output (nil = key-locked)
 	Sign   []Key   // keys that witness the transaction
 	TxID   []byte  // 32 bytes: id of the spent output's transaction
+	// Phase2Invalid sets the Alonzo+ is_valid flag to false (a transaction whose scripts fail:
+	// only its collateral is collected). The validity interval is a phase-1 check.
+	Phase2Invalid bool
 }
 
 type Built struct {
@@ -302,7 +305,11 @@ func BuildTx(spec TxSpec) (*Built, error) {
 	case "shelley", "allegra", "mary":
 		txBytes = cArr(bodyBytes, witBytes, null)
 	default:
-		txBytes = cArr(bodyBytes, witBytes, []byte{0xf5}, null)
+		flag := []byte{0xf5}
+		if spec.Phase2Invalid {
+			flag = []byte{0xf4}
+		}
+		txBytes = cArr(bodyBytes, witBytes, flag, null)
 	}
 	outBytes := cArr(cBytes(addr), cUint(inCoin))
 	b := &Built{Bytes: txBytes}
